@@ -111,6 +111,10 @@ func genReproCase(t *rapid.T) *BuildCase {
 	genFullMeta(t, c)
 	c.Meta.Platform = ""
 	c.MTime = genMTime(t, "pkgmtime2")
+	if rapid.IntRange(0, 9).Draw(t, "epoch-mtime") == 0 {
+		// boundary: the configured mtime is the Unix epoch itself (a set, non-zero time.Time whose Unix() is 0)
+		c.MTime, c.MTimeEpoch = 0, true
+	}
 	c.RPMBuildHost = "buildhost.example"
 	genSimpleScripts(t, c)
 	if rapid.Bool().Draw(t, "changelog?") {
@@ -266,6 +270,9 @@ func TestC07(t *testing.T) {
 	rapid.Check(t, func(rt *rapid.T) {
 		c := genReproCase(rt)
 		labels, _, _ := classifyBuildCase(c)
+		if c.MTimeEpoch {
+			labels = append(labels, "mtime-is-unix-epoch")
+		}
 		st.Record(c, nontrivialC07(c), labels...)
 		st.Report(rt, c, checkC07InProcess(c))
 	})
